@@ -205,6 +205,18 @@ theorem multi_entry_scan_exact {α : Type} [DecidableEq α] (docs scan : List α
     (fun d h => hsub d ((IndexMulti.mem_dedupSeen scan [] d).mp h).1)
     (fun d h hm => (IndexMulti.mem_dedupSeen scan [] d).mpr ⟨hcomplete d h hm, by simp⟩)
 
+/-- **Every live document is reachable through every index**: whatever its values — nil, an empty array, repeated
+    elements — a document generates at least one entry under any list of indexed fields (`generateKeysAndProcess` with
+    the generators of `internal/db/index.go`). This is the completeness premise of `multi_entry_scan_exact` for
+    conditions on the other fields of a composite index; before the repair e25659e a nil or empty array generated no
+    entry and the premise failed. -/
+theorem every_document_has_an_entry_in_every_index (d : IndexMulti.MDoc) (fields : List String) :
+    IndexMulti.keysOf d fields ≠ [] :=
+  IndexMulti.keysOf_ne_nil d fields
+
+example : IndexMulti.keysOf ⟨1, .str [97], .null, some [], none⟩ ["name", "nums", "tags"] = [[.str [97], .null, .null]] := by
+  decide
+
 /-- without the de-duplication the statement is false: a document with two entries is listed twice -/
 example : ([7, 7, 8].filter (fun _ => true)) ≠ [7, 8] ∧ (IndexMulti.dedupSeen [] [7, 7, 8]).filter (fun _ => true) = [7, 8] := by
   decide
